@@ -11,22 +11,30 @@ def arr? (s : String) : Option (Array GInt) :=
 def strArr (a : Array GInt) : String := gintListStr a.toList
 
 /-- one entry of a sweep program: index data + the `_setup` descriptor + (for constant gates) the array:
-`u:<t>:<name>:<objId>:<tr>:<ph>:<U or ->`, `c:<c>:<t>:<name>:<objId>:<tr>:<ph>:<U or ->` -/
+`u:<t>:<name>:<objId>:<tr>:<ph>:<U or ->`, `c:<c>:<t>:<name>:<objId>:<tr>:<ph>:<U or ->`,
+`x:<nq>:<name>:<objId>:<tr>:<ph>:<scalar or ->` (a `kind='custom'` oracle on a `2^nq × 2^nq` register) -/
 structure RawGate where
   ctrl : Option (List Int)
   tgt : List Int
   desc : GateDesc
   arr : Option (Array GInt)
+  custom : Option Nat := none
 
 def parseRawGate (s : String) : Option RawGate :=
   let mk (c : Option (List Int)) (t nm oid tr ph u : String) : Option RawGate := do
     let t ← parseIntList? t; let oid ← oid.toNat?
     let a ← (if u = "-" then some none else (arr? u).map some)
-    pure ⟨c, t, ⟨nm, oid, tr == "1", ph == "1"⟩, a⟩
+    pure { ctrl := c, tgt := t, desc := ⟨nm, oid, tr == "1", ph == "1"⟩, arr := a }
   match s.splitOn ":" with
   | ["u", t, nm, oid, tr, ph, u] => mk none t nm oid tr ph u
   | ["c", c, t, nm, oid, tr, ph, u] => do let c ← parseIntList? c; mk (some c) t nm oid tr ph u
+  | ["x", nq, nm, oid, tr, ph, u] => do
+      let nq ← nq.toNat?; let g ← mk none "-" nm oid tr ph u
+      pure { g with custom := some nq }
   | _ => none
+
+/-- the entries a Grover-type oracle multiplies: the diagonal of the state reshaped to `2^nq × 2^nq` (`q0[idx, idx]`) -/
+def oracleDiag (n nq : Nat) : Bits n → Bool := fun x => x.toNat / 2 ^ nq == x.toNat % 2 ^ nq
 
 /-- resolve the index data with the simulator's `RawOp.compile`; the matrix source is the model's slot (`repSlot`) if `_setup`
 gives the gate a row (`slotOf`), else the constant array -/
@@ -38,6 +46,10 @@ def compileGate (n : Nat) (gs : List GateDesc) (i : Nat) (g : RawGate) : Option 
   match src? with
   | none => none
   | some slot =>
+    if let some nq := g.custom then
+      (if n ≠ 2 * nq || (g.arr.isSome && (g.arr.getD dummy).size ≠ 1) then none
+       else some (.custom (match slot with | some sl => .param sl | none => .fixed (lookupMat (g.arr.getD dummy))) (oracleDiag n nq)))
+    else
     let u := (g.arr.getD dummy)
     let raw : RawOp GInt := match g.ctrl with
       | none => .unitary u g.tgt
@@ -224,6 +236,35 @@ def handle (args : List String) : String :=
             | none => "missing")
         | none => "unused-row")
       return s!"{strArr out}|{strArr res.2.1}|{grads}"
+  | ["stack", descs] => Id.run do
+      -- rows of the tensors `CircuitTorchWrapper.forward` hands to `_CircuitFunction`: t<objId> (trainable) / p<position> (placeholder)
+      let some gs := (descs.splitOn "|").mapM parseDesc | return "bad-op"
+      return "|".intercalate ((nameList gs).map fun nm =>
+        s!"{nm}=" ++ ",".intercalate ((stackTags gs nm).map fun t => (if t.1 then "p" else "t") ++ toString t.2))
+  | ["xbind", descs, pos] => Id.run do
+      -- the row `forward` hands (`set_args`) to the trainable custom gate at each given position = the stacked row `_setup` assigns to it
+      let some gs := (descs.splitOn "|").mapM parseDesc | return "bad-op"
+      let some pos := parseNatList? pos | return "bad-op"
+      return ",".intercalate (pos.map fun i => match slotOf gs i with
+        | some (nm, r) => (match (stackTags gs nm)[r]? with
+            | some t => (if t.1 then "p" else "t") ++ toString t.2
+            | none => "missing")
+        | none => "-")
+  | ["phrows", descs] => Id.run do
+      -- rows of `hgate_torch_dict[name]` after `setP`: the placeholder gates of that name in circuit order
+      let some gs := (descs.splitOn "|").mapM parseDesc | return "bad-op"
+      return "|".intercalate (((nameList gs).filter fun nm => !(placeholderPositions gs nm).isEmpty).map fun nm =>
+        s!"{nm}=" ++ ",".intercalate ((placeholderPositions gs nm).map toString))
+  | ["ipg", n, q0, q1, c, tags] => Id.run do
+      let some n := n.toNat? | return "bad-op"
+      let some q0 := arr? q0 | return "bad-op"
+      let some q1 := arr? q1 | return "bad-op"
+      let some c := arr? c | return "bad-op"
+      if q0.size ≠ 2 ^ n || q1.size ≠ 2 ^ n || c.size ≠ 1 || tags.length ≠ 2 then return "bad-op"
+      let r := innerProductGrad (n := n) (lookup q0) (lookup q1) (c.getD 0 0)
+      let a := if tags.toList.getD 0 '0' == '1' then strArr (tabulate r.1) else "-"
+      let b := if tags.toList.getD 1 '0' == '1' then strArr (tabulate r.2) else "-"
+      return s!"{a}|{b}"
   | ["slots", descs] => Id.run do
       let some gs := (descs.splitOn "|").mapM parseDesc | return "bad-op"
       return "|".intercalate ((List.range gs.length).map fun i => match slotOf gs i with
